@@ -12,6 +12,7 @@
       - textual tags            (Model/TagText.v,  after fix 802bc14)
       - DICOM JSON values/text  (Model/Json.v,     after fix 0bd6776)
       - RLE Lossless fragments  (Model/Rle.v,      after fix 52b40dc)
+      - PDU decoding            (Model/Pdu.v; also stated as C25_read_total)
       - the eager data set reader's step function terminates on every byte
         stream (Model/ValueRead.v: the `continue` loop never exhausts the fuel
         given by the stream length) and every value reader is total
@@ -19,7 +20,7 @@
     What is NOT proved (only exercised by the release-build fuzzing harness
     harness/g_fuzz with catch_unwind, a per-case watchdog and a child process
     per batch): file opening / preamble logic, file meta reader, lazy reader,
-    collector, PDU reader, JPEG / deflate / JPEG-LS / J2K / JXL decoders,
+    collector, JPEG / deflate / JPEG-LS / J2K / JXL decoders,
     multi-byte text decoders, serde_json's text layer, dump, selectors,
     date/time/range parsers. Known finding (KNOWN_FINDINGS.txt, class
     prealloc-declared-length): value readers allocate the declared value
@@ -29,6 +30,7 @@ From DicomV Require Base.RustStr Proofs.RustStrP Model.TagText Proofs.TagTextP.
 From DicomV Require Model.Json Proofs.JsonTotalP.
 From DicomV Require Model.Rle Proofs.RleTotalP.
 From DicomV Require Base.Endian Model.ValueRead Proofs.ValueReadP.
+From DicomV Require Model.Pdu Proofs.PduTotalP.
 (* the four models define clashing short names ([len], [E_custom], ...): nothing is imported,
    every identifier below is qualified by its model *)
 
@@ -62,6 +64,12 @@ Theorem C05_eager_next_terminates : forall dict rejects kind strat odd st,
   ValueRead.next dict rejects (ValueRead.next_fuel st) kind strat odd st <> ValueRead.NFuel.
 Proof. intros. apply ValueReadP.next_no_fuel. unfold ValueRead.next_fuel. apply Nat.lt_succ_diag_r. Qed.
 
+(** [read_pdu] on ANY byte buffer (every element a byte), any maximum length, strict or not:
+    every unguarded [Buf] read of reader.rs is an explicit [Panic] in the model, none is reachable. *)
+Theorem C05_pdu_total : forall max strict b w,
+  Endian.wf_bytes b -> Pdu.read_pdu max strict b <> Panic w.
+Proof. intros max strict b w H. apply PduTotalP.read_pdu_total. exact H. Qed.
+
 Check C05_tag_text_total : forall (cps : str) w, TagText.tag_from_str (RustStr.utf8 cps) <> Panic w.
 Check C05_json_total : forall X j w, Json.de X j <> Panic w.
 Check C05_rle_total : forall o, is_panic (Rle.decode o) = false.
@@ -71,3 +79,4 @@ Print Assumptions C05_json_text_total.
 Print Assumptions C05_rle_total.
 Print Assumptions C05_rle_frame_total.
 Print Assumptions C05_eager_next_terminates.
+Print Assumptions C05_pdu_total.
